@@ -1,10 +1,14 @@
 (* C10 -- files are converted independently; exit status reflects failures.
-   PARTIAL: the bookkeeping is proved on the process/output model (exit status 1 exactly when some error was recorded; one load result
-   per input file; every loadable file is handed to its converter exactly once, in a type-priority-sorted permutation).  Independence
-   of a valid unit's service from unrelated files, placements and discovery orders, and that every failure is logged with the file's
-   path, are decided by the metamorphic end-to-end oracle of tools/props/C10.py. *)
+   Proved on the process/output model: the bookkeeping (exit status 1 exactly when some error was recorded; one load result per input
+   file; every loadable file is handed to its converter exactly once, in a type-priority-sorted permutation) and INDEPENDENCE
+   (C10_added_files_change_nothing, Proofs/C10run.v): adding any files -- valid, failing conversion or not loadable -- to a set of
+   files whose non-pod units convert changes the result of no non-pod unit of that set.
+   C10_added_files_change_nothing_pods (Proofs/C10pods.v) extends this to pods: a pod keeps its service too unless one of the added
+   units names it in Pod= (then the pod's service lists the new member, C09) -- C10_pod_independence_example shows both sides.
+   PARTIAL beyond that: independence from placement and discovery order, and that every failure is logged with the file's path are
+   decided by the metamorphic end-to-end oracle of tools/props/C10.py. *)
 From Coq Require Import Sorting.Permutation.
-From QV Require Import Model.Base Model.Unit Model.Names Model.Convert Model.Process Model.Output Proofs.C08 Proofs.C10.
+From QV Require Import Model.Base Generated.Tables Model.Unit Model.Path Model.Names Model.Convert Model.Process Model.Output Proofs.C08 Proofs.C09run Proofs.C10 Proofs.C10run Proofs.C10pods Proofs.Prio.
 
 Theorem C10_exit : forall dry fc mk a prev svcs,
   let '(effs, errs, exit) := output_phase dry fc mk a prev svcs in (exit = 1%N <-> errs <> []) /\ (exit = 0%N <-> errs = []).
@@ -23,3 +27,68 @@ Theorem C10_unloadable_files_change_nothing : forall podman ex kf mn files1 file
   (forall u i, load_one p t <> LOk u i) ->
   snd (process_files podman ex kf mn (files1 ++ (p, t) :: files2)) = snd (process_files podman ex kf mn (files1 ++ files2)).
 Proof. exact unloadable_file_changes_nothing. Qed.
+
+(* ---- independence: the main clause ----
+   Leaving files out of a run -- equivalently, adding files (valid, failing conversion, or not loadable at all) to it -- changes the
+   result of no unit that is not a pod: same service text, same service file name.  Premises: the files left out have other file
+   names than the files kept (the loader guarantees distinct names, C13), and every kept unit that is not a pod converts in the
+   smaller run (so what it references is present and converts).  Pods are excepted because a pod's service lists the containers
+   that joined it (C09).  unit_results pairs each loaded unit, in conversion order, with its result. *)
+Theorem C10_added_files_change_nothing : forall podman exists_path kill_fixed mount_nl (keepp : str -> bool) files,
+  (forall p q, In p (map fst files) -> In q (map fst files) -> keepp p = true -> keepp q = false ->
+     forall f, file_name p = Some f -> file_name q <> Some f) ->
+  (forall x r, In (x, r) (unit_results podman exists_path kill_fixed mount_nl (filter (fun f => keepp (fst f)) files)) -> is_podu x = false -> exists svc sp, r = ROk svc sp) ->
+  Forall2 (fun a b => fst a = fst b /\ (is_podu (fst a) = false -> snd a = snd b))
+    (unit_results podman exists_path kill_fixed mount_nl (filter (fun f => keepp (fst f)) files))
+    (filter (fun p => keepp (l_path (fst p))) (unit_results podman exists_path kill_fixed mount_nl files)).
+Proof. exact added_files_change_nothing. Qed.
+
+(* the same, read off the list of (path, result) pairs of process_files *)
+Theorem C10_added_files_keep_results : forall podman exists_path kill_fixed mount_nl (keepp : str -> bool) files p r,
+  (forall p q, In p (map fst files) -> In q (map fst files) -> keepp p = true -> keepp q = false ->
+     forall f, file_name p = Some f -> file_name q <> Some f) ->
+  (forall q s, In (q, s) (snd (process_files podman exists_path kill_fixed mount_nl (filter (fun f => keepp (fst f)) files))) -> type_of_path q <> Some TPod -> exists svc sp, s = ROk svc sp) ->
+  In (p, r) (snd (process_files podman exists_path kill_fixed mount_nl (filter (fun f => keepp (fst f)) files))) -> type_of_path p <> Some TPod ->
+  In (p, r) (snd (process_files podman exists_path kill_fixed mount_nl files)).
+Proof. exact added_files_keep_results. Qed.
+
+(* one conversion: a larger name table (more entries, longer container lists) never changes a successful result *)
+Theorem C10_convert_one_monotone : forall podman exists_path kill_fixed mount_nl t t' u path ty svc sp t1,
+  TR t t' -> (forall f, file_name path = Some f -> tbl_get t f = tbl_get t' f) ->
+  convert_one podman exists_path kill_fixed mount_nl u path ty t = COk (svc, sp, t1) ->
+  exists t1', convert_one podman exists_path kill_fixed mount_nl u path ty t' = COk (svc, sp, t1').
+Proof. exact convert_one_mono. Qed.
+
+(* sorting by type priority commutes with leaving units out (the sort is stable) *)
+Theorem C10_sort_filter : forall keep l, sort_units (filter keep l) = filter keep (sort_units l).
+Proof. exact sort_filter. Qed.
+
+Theorem C10_independence_example :
+  filter (fun f => ex_keep (fst f)) ex_big = ex_small /\
+  (forall q s, In (q, s) (snd (process_files (s2l "/usr/bin/podman") (fun _ => false) true false ex_small)) -> exists svc sp, s = ROk svc sp) /\
+  (exists e, In (s2l "/d/bad.container", RErr e) (snd (process_files (s2l "/usr/bin/podman") (fun _ => false) true false ex_big))) /\
+  length (snd (process_files (s2l "/usr/bin/podman") (fun _ => false) true false ex_big)) = 4%nat.
+Proof. exact independence_example. Qed.
+
+(* the model's type priorities are those of main.rs today (regenerated table) ... *)
+Theorem C10_priority_table : length priority_table = 7%nat /\ forall t, assoc_str (type_name t) priority_table = Some (type_priority t).
+Proof. exact priority_table_ok. Qed.
+
+(* ---- independence, pods included ----
+   stable_unit T x: x is not a pod, or it is a pod whose file name is not among T, the Pod= values of the units left out.  Every
+   successful result of a stable unit of the smaller run is the result of the same unit in the larger run. *)
+Theorem C10_added_files_change_nothing_pods : forall podman exists_path kill_fixed mount_nl (keepp : str -> bool) files,
+  (forall p q, In p (map fst files) -> In q (map fst files) -> keepp p = true -> keepp q = false ->
+     forall f, file_name p = Some f -> file_name q <> Some f) ->
+  (forall x r, In (x, r) (unit_results podman exists_path kill_fixed mount_nl (filter (fun f => keepp (fst f)) files)) -> is_podu x = false -> exists svc sp, r = ROk svc sp) ->
+  let T := junk_pods (fun x => keepp (l_path x)) (sort_units (units_of files)) in
+  Forall2 (fun a b => fst a = fst b /\ (stable_unit T (fst a) = true -> forall svc sp, snd a = ROk svc sp -> snd b = ROk svc sp))
+    (unit_results podman exists_path kill_fixed mount_nl (filter (fun f => keepp (fst f)) files))
+    (filter (fun p => keepp (l_path (fst p))) (unit_results podman exists_path kill_fixed mount_nl files)).
+Proof. exact added_files_change_nothing_pods. Qed.
+
+(* a pod keeps its service when an unrelated container is added, and does not when the added container names it in Pod= *)
+Theorem C10_pod_independence_example :
+  (exists svc sp, pod_result exp_small = Some (ROk svc sp) /\ pod_result exp_big_other = Some (ROk svc sp)) /\
+  pod_result exp_big_joins <> pod_result exp_small.
+Proof. exact pod_independence_example. Qed.
